@@ -66,15 +66,15 @@ type Finding struct {
 
 // Prop is one property's machinery.
 type Prop struct {
-	ID    string
-	Level string // exploration | fault_enumeration
-	Rule  string // how cases are generated and what makes one non-trivial
-	Real  []string
-	Stub  []string
+	ID          string
+	Level       string // exploration | fault_enumeration
+	Rule        string // how cases are generated and what makes one non-trivial
+	Real        []string
+	Stub        []string
 	Assumptions []string
-	New   func() Scenario
-	Gen   func(r *Rand, tier string, i int) Scenario
-	Run   func(t *testing.T, sc Scenario, src verifsim.DecisionSource, keep bool) *RunResult
+	New         func() Scenario
+	Gen         func(r *Rand, tier string, i int) Scenario
+	Run         func(t *testing.T, sc Scenario, src verifsim.DecisionSource, keep bool) *RunResult
 	// Shrink proposes simpler scenarios (optional).
 	Shrink func(sc Scenario) []Scenario
 	// Shape is a short string identifying the scenario's structural class.
@@ -173,27 +173,27 @@ func loadFindings(path, prop string) []Finding {
 }
 
 type workerStats struct {
-	Runs          int            `json:"runs"`
-	Inconclusive  int            `json:"inconclusive"`
-	Steps         int64          `json:"steps"`
-	FakeNs        int64          `json:"fake_ns"`
-	Faults        map[string]int `json:"faults"`
-	Probes        map[string]int `json:"probes"`
-	NonTrivial    map[string]int `json:"nontrivial_keys"` // distinct (shape,schedhash) of non-trivial runs
-	Schedules     map[string]int `json:"schedules"`
-	SitePairs     map[string]int `json:"site_pairs"`
-	Samples       []any          `json:"samples"`
-	Known         map[string]int `json:"known"`
+	Runs          int               `json:"runs"`
+	Inconclusive  int               `json:"inconclusive"`
+	Steps         int64             `json:"steps"`
+	FakeNs        int64             `json:"fake_ns"`
+	Faults        map[string]int    `json:"faults"`
+	Probes        map[string]int    `json:"probes"`
+	NonTrivial    map[string]int    `json:"nontrivial_keys"` // distinct (shape,schedhash) of non-trivial runs
+	Schedules     map[string]int    `json:"schedules"`
+	SitePairs     map[string]int    `json:"site_pairs"`
+	Samples       []any             `json:"samples"`
+	Known         map[string]int    `json:"known"`
 	KnownWhat     map[string]string `json:"known_what"`
-	Violations    []string       `json:"violations"` // replay paths
-	ViolationMsgs []string       `json:"violation_msgs"`
-	WallS         float64        `json:"wall_s"`
-	Exhaustive    bool           `json:"exhaustive"`
-	EnumCases     int            `json:"enum_cases"`
-	Errors        []string       `json:"errors"`
-	Meta          map[string]any `json:"meta"`
-	MaxRunS       float64        `json:"max_run_s"`
-	MaxRunWhat    string         `json:"max_run_what"`
+	Violations    []string          `json:"violations"` // replay paths
+	ViolationMsgs []string          `json:"violation_msgs"`
+	WallS         float64           `json:"wall_s"`
+	Exhaustive    bool              `json:"exhaustive"`
+	EnumCases     int               `json:"enum_cases"`
+	Errors        []string          `json:"errors"`
+	Meta          map[string]any    `json:"meta"`
+	MaxRunS       float64           `json:"max_run_s"`
+	MaxRunWhat    string            `json:"max_run_what"`
 }
 
 func setOpenTriggers(findings []Finding) {
